@@ -132,6 +132,20 @@ func TestC14(t *testing.T) {
 		}
 		leakCheck("after a successful snapshot")
 		mc.logf("healthy snapshot: %d write calls, %d bytes", probe.Calls, probe.Bytes)
+		{
+			// ... and restores, also when the collection holds no rows at all
+			first := snapshotBytes(mc)
+			rc := newCollectionLive(sch, mc.M.ColLive, column.Options{})
+			if err := rc.Restore(bytes.NewReader(first)); err != nil {
+				rc.Close()
+				mc.fail(t, "Restore of a healthy snapshot (%d bytes, %d rows) failed: %v", len(first), len(mc.M.Rows), err)
+			}
+			mc.CheckDerived(t, rc, "first healthy snapshot, restored", false)
+			rc.Close()
+			if len(mc.M.Rows) == 0 {
+				mc.flag("snapshot-of-an-empty-collection")
+			}
+		}
 
 		// the fault plans of this case: every write call index, byte budgets (all when small), once/forever
 		var plans []*faultWriter
